@@ -7,7 +7,7 @@ use crate::membership_commitment::{MerkleBatchPath, MerkleTree, MerkleTreeLeaf};
 use digest::{FixedOutput, HashMarker, Output, OutputSizeUser, Update, consts::U8};
 
 const IN_CAP: usize = 17; // longest input: two 8-byte digests (a 17th byte is kept to detect longer inputs)
-const TABLE_CAP: usize = 11;
+const TABLE_CAP: usize = 13;
 
 /// hash input packed into integers (first 16 bytes little-endian in `lo`, a 17th byte in `hi`): comparisons are integer
 /// equalities, no byte loops
@@ -88,8 +88,12 @@ impl FixedOutput for IdealHash {
 #[derive(Clone, Copy, PartialEq, Eq)]
 pub(crate) struct Leaf(u8);
 impl MerkleTreeLeaf for Leaf {
+    // two bytes, like every real leaf type an encoding that is never the single byte 0: `MerkleTree::new` pads the leaf
+    // level with D::digest([0u8]), and the verifier does not compare wire indices with the number of leaves, so a leaf TYPE
+    // that could encode to [0] would let the padding slot be claimed (first version of this harness: false alarm at n = 3,
+    // index 3). The real leaf types encode to 104 bytes and more (stated as an assumption of C09).
     fn as_bytes_for_merkle_tree(&self) -> Vec<u8> {
-        vec![self.0]
+        vec![0xA5, self.0]
     }
 }
 
@@ -246,12 +250,12 @@ fn check_length_binding(n: usize, ki: usize, kc: usize, nvals: usize) {
     assert!(!ok, "C09 soundness: the number of claimed leaves is bound to the number of proof indices");
 }
 
-c09_harness! { #[kani::unwind(13)] fn c09_length_binding_n2_i1_c2() { check_length_binding(2, 1, 2, 1) } }
-c09_harness! { #[kani::unwind(13)] fn c09_length_binding_n2_i2_c1() { check_length_binding(2, 2, 1, 0) } }
-c09_harness! { #[kani::unwind(13)] fn c09_length_binding_n3_i1_c2() { check_length_binding(3, 1, 2, 2) } }
+c09_harness! { #[kani::unwind(15)] fn c09_length_binding_n2_i1_c2() { check_length_binding(2, 1, 2, 1) } }
+c09_harness! { #[kani::unwind(15)] fn c09_length_binding_n2_i2_c1() { check_length_binding(2, 2, 1, 0) } }
+c09_harness! { #[kani::unwind(15)] fn c09_length_binding_n3_i1_c2() { check_length_binding(3, 1, 2, 2) } }
 
-macro_rules! c09_completeness { ($($name:ident = ($n:expr, $mask:expr)),* $(,)?) => { $( c09_harness! { #[kani::unwind(13)] fn $name() { check_completeness($n, $mask) } } )* }; }
-macro_rules! c09_soundness { ($($name:ident = ($n:expr, $k:expr, $v:expr, $i0:expr, $i1:expr)),* $(,)?) => { $( c09_harness! { #[kani::unwind(13)] fn $name() { check_soundness($n, $k, $v, $i0, $i1) } } )* }; }
+macro_rules! c09_completeness { ($($name:ident = ($n:expr, $mask:expr)),* $(,)?) => { $( c09_harness! { #[kani::unwind(15)] fn $name() { check_completeness($n, $mask) } } )* }; }
+macro_rules! c09_soundness { ($($name:ident = ($n:expr, $k:expr, $v:expr, $i0:expr, $i1:expr)),* $(,)?) => { $( c09_harness! { #[kani::unwind(15)] fn $name() { check_soundness($n, $k, $v, $i0, $i1) } } )* }; }
 
 c09_soundness!(
     // n = 2, one claimed leaf, the honest number of path values (1): in-range and out-of-range positions
